@@ -87,6 +87,10 @@ def dist_of(od, p):
     return od.CategoricalDistribution(tuple(a["choices"]))
 
 
+class TransientStorageError(RuntimeError):
+    pass
+
+
 def call(trial, name, p):
     a = p["args"]
     if p["kind"] == "float":
@@ -224,6 +228,10 @@ def make_scenarios(ctx, od):
                 storage = rng.choice(["sqlite", "journal"])
             sc = {"sampler": sampler, "seed": rng.randrange(2 ** 31), "storage": storage, "params": params,
                   "hist": hist, "n_hist": 0 if hist == "none" else rng.choice([3, 4, 5]), "trials": [], "sid": len(scs)}
+            # every 4th scenario (not brute/grid: a repeated suggest changes their bookkeeping): the storage refuses the FIRST
+            # write of every parameter once (a transient error); the objective catches it and asks again
+            if sampler not in ("brute", "grid") and len(scs) % 4 == 1:
+                sc["flaky"] = True
             if sampler == "nsga2":
                 sc["crossover"] = rng.choice(["uniform", "blx", "sbx", "vsbx", "undx", "spx"])
             if sampler == "qmc":
@@ -418,6 +426,17 @@ def run_scenario(sc: dict) -> list:
     rng = random.Random(sc["seed"] ^ 0x5EED)
     params = sc["params"]
     decl = {nm: dist_of(od, p) for nm, p in params.items()}
+    flaky_on = [False]
+    if sc.get("flaky"):
+        real_set_param = storage.set_trial_param
+        refused = set()
+
+        def set_trial_param(trial_id, name, value, dist):
+            if flaky_on[0] and (trial_id, name) not in refused:
+                refused.add((trial_id, name))
+                raise TransientStorageError("scripted transient failure")
+            return real_set_param(trial_id, name, value, dist)
+        storage.set_trial_param = set_trial_param
 
     # ---- prior history (not judged): the same names, possibly under different ranges
     def hist_objective(trial):
@@ -453,7 +472,10 @@ def run_scenario(sc: dict) -> list:
                     e = {"a": "suggest", "name": nm, "d": c11.dtok(d, K), "exc": 0, "o": c11._blank("none"), "tp": 0,
                          "same": -1, "fx": -1, "sfx": -1, "rx": -1}
                     try:
-                        v = call(trial, nm, p)
+                        try:
+                            v = call(trial, nm, p)
+                        except TransientStorageError:
+                            v = call(trial, nm, p)          # what a robust objective does: ask again
                     except Exception as ex:  # noqa: a declared, valid call must not raise
                         e["exc"] = 2
                         rec["exception"] = f"{type(ex).__name__}: {ex}"[:300]
@@ -501,6 +523,7 @@ def run_scenario(sc: dict) -> list:
             study.enqueue_trial(dict(plan["enqueue"]))
         n_before = len(study.trials)
         signal.alarm(TRIAL_TIMEOUT_S)
+        flaky_on[0] = True
         try:
             study.optimize(objective, n_trials=1)
         except _TrialTimeout:
@@ -511,6 +534,7 @@ def run_scenario(sc: dict) -> list:
             rec.setdefault("exception", f"{type(ex).__name__}: {ex}"[:300])
         finally:
             signal.alarm(0)
+            flaky_on[0] = False
         if "received" not in rec and "exception" not in rec:
             continue            # the sampler stopped the study (exhaustive samplers): nothing to judge
         fixed_obs = {nm: c11.obs(v, decl[nm], params[nm]["K"]) for nm, v in (plan["enqueue"] or {}).items() if nm in params}
